@@ -142,7 +142,7 @@ def gen_plan(rng, index, tier):
         elif op == "rotate":
             kw["k"] = rng.choice([1, 2, 3, 5])
         elif op == "std":
-            kw["which"] = rng.choice(["power", "flux", "mgFlux", "keff", "notes", "buLimit", "pdens", "detailedNDens", "percentBuByPin", "nozzleType", "crElevation", "xsType", "allheights"])
+            kw["which"] = rng.choice(["power", "flux", "mgFlux", "keff", "notes", "buLimit", "pdens", "detailedNDens", "percentBuByPin", "nozzleType", "crElevation", "xsType", "allheights", "envGroup"])
             if kw["which"] in ("nozzleType", "crElevation") and cfg.get("reactor") == "gen":
                 cfg["blueprint"]["nozzle"] = True
         steps.append(c06._mk_step(0, a["name"], pt, op, **kw))
@@ -361,9 +361,14 @@ def op_std(d, st, actor):
             if fb:
                 fb[-1].setHeight(fb[-1].getHeight() * (1.0 + 0.01 * (kk + 1)))
         d.mass_dirty = True
+    elif w == "envGroup":
+        # burnup/environment groups beyond the 26th are lower-case letters
+        for j, bb in enumerate(blks):
+            bb.p.envGroup = ["B", "Z", "a", "b", "z", "Y"][(st["u"] + j) % 6]
     elif w == "xsType":
         # cross-section types beyond the 26 capital letters are lower-case letters
-        b.p.xsType = ["B", "a", "q", "z", "Z"][st["u"] % 5]
+        for j, bb in enumerate(blks):
+            bb.p.xsType = ["B", "a", "q", "z", "Z"][(st["u"] + j) % 5]
     elif w == "nozzleType":
         # a value the assembly design states in the blueprints, changed during the run (a re-orificing)
         b.parent.p.nozzleType = f"Orifice-{st['u']}"
